@@ -491,6 +491,86 @@ def retype_pass(ctx):
                     return
 
 
+def redeclared_type_pass(ctx):
+    """features leave a class that has instances — one at a time (remove, pop, del by position) or in bulk (clear(), `del
+    fs[:]`, whole-collection assignment) — and a feature of the same name and another type joins it: what the old objects
+    (of the class and of a subclass) and new ones show under that name conforms to the type declared *now*, values of the
+    new type are accepted and values of the old one refused"""
+    from pyecore import ecore as E
+    ways = ['remove', 'pop', 'delitem', 'clear', 'delslice', 'assign']
+    for way in ways:
+        for ref in (False, True):
+            for many in (False, True):
+                A, B, H = E.EClass('A'), E.EClass('B'), E.EClass('H')
+                S = E.EClass('S', superclass=(H,))
+                other = E.EAttribute('other', E.EString)
+                f = (E.EReference('f', A, upper=-1 if many else 1) if ref else E.EAttribute('f', E.EString, upper=-1 if many else 1))
+                H.eStructuralFeatures.extend([other, f])
+                olds = [H(), S()]
+                for o in olds:
+                    v = A() if ref else 'text'
+                    if many:
+                        o.f.append(v)
+                    else:
+                        o.f = v
+                fs = H.eStructuralFeatures
+                try:
+                    if way == 'remove':
+                        fs.remove(f)
+                    elif way == 'pop':
+                        fs.pop()
+                    elif way == 'delitem':
+                        del fs[1]
+                    elif way == 'clear':
+                        fs.clear()
+                    elif way == 'delslice':
+                        del fs[:]
+                    else:
+                        H.eStructuralFeatures = []
+                except Exception as e:
+                    ctx.count(f'redeclared/{way}/raised-{type(e).__name__}')
+                    continue
+                g = (E.EReference('f', B, upper=-1 if many else 1) if ref else E.EAttribute('f', E.EInt, upper=-1 if many else 1))
+                H.eStructuralFeatures.append(g)
+                ctx.evaluations += 1
+                ctx.nontriv(('redeclared', way, ref, many))
+                ctx.count(f'redeclared/{way}')
+                for who, o in (('an object of the class that held a value of the old feature', olds[0]),
+                               ('an object of a subclass that held a value of the old feature', olds[1]), ('a new object', H())):
+                    problem = None
+                    try:
+                        seen = list(o.f) if many else ([o.f] if o.f is not None and o.f != 0 else [])
+                        bad = [x for x in seen if not (isinstance(x, B) if ref else type(x) is int)]
+                        if bad:
+                            problem = f'reads {bad[0]!r}, a value of the feature that left'
+                    except Exception as e:
+                        problem = f'reading raises {type(e).__name__}: {e}'
+                    if not problem:
+                        try:
+                            if many:
+                                o.f.append(B() if ref else 7)
+                            else:
+                                o.f = B() if ref else 7
+                        except Exception as e:
+                            problem = f'a value of the new type is refused ({type(e).__name__})'
+                    if not problem:
+                        try:
+                            if many:
+                                o.f.append(A() if ref else 'text')
+                            else:
+                                o.f = A() if ref else 'text'
+                            problem = 'a value of the old type is still accepted'
+                        except E.BadValueError:
+                            pass
+                        except Exception as e:
+                            problem = f'a value of the old type raises {type(e).__name__} instead of BadValueError'
+                    if problem:
+                        ctx.violate({'clause': 'retype', 'path': 'redeclared-' + way, 'ref': ref, 'many': many},
+                                    f'a {"many" if many else "single"}-valued {"reference" if ref else "attribute"} left its class by {way} and another '
+                                    f'one of the same name and another type joined; {who}: {problem}', {'redeclared': [way, ref, many]})
+                        return
+
+
 def opposite_type_pass(ctx):
     """`EReference.eOpposite` stands in for a feature typed EReference: a reference, None and nothing else — whatever its
     truth value — is accepted; a refused value leaves the pairing as it was"""
@@ -535,6 +615,7 @@ def run(ctx):
     load_pass(ctx)
     retype_pass(ctx)
     opposite_type_pass(ctx)
+    redeclared_type_pass(ctx)
     matrix(ctx)
     opposite_typing(ctx)
     ctx.rule += ('; plus the exhaustive conformance matrix: every ecore data type, two enumerations sharing a literal name, 5 classes '
